@@ -213,9 +213,25 @@ def load_native():
             if sys.path[0] != REPO:
                 sys.path.insert(0, REPO)
             importlib.invalidate_caches()
-            importlib.import_module("canopen")
-            importlib.import_module("canopen.profiles.p402")
-            importlib.import_module("canopen.objectdictionary.eds")
+            # deterministic environment for native runs: canopen binds queue/time/threading to the
+            # models (fake clock, delivery hook, scheduler) already at import time, so that objects
+            # created at import or class-definition time use them too; python-can is imported first
+            # and keeps the real modules.  The package source and struct/io/bytes/dict stay real.
+            importlib.import_module("can")
+            saved_std = {k: sys.modules.get(k) for k in ("queue", "time", "threading")}
+            sys.modules["queue"] = stdlib.queue_model
+            sys.modules["time"] = stdlib.time_model
+            sys.modules["threading"] = stdlib.threading_model
+            try:
+                importlib.import_module("canopen")
+                importlib.import_module("canopen.profiles.p402")
+                importlib.import_module("canopen.objectdictionary.eds")
+            finally:
+                for k, v in saved_std.items():
+                    if v is None:
+                        sys.modules.pop(k, None)
+                    else:
+                        sys.modules[k] = v
             mods = {k: v for k, v in sys.modules.items()
                     if k == "canopen" or k.startswith("canopen.")}
             f = mods["canopen"].__file__
